@@ -537,7 +537,7 @@ def reward_fn(case):
 # ---------------------------------------------------------------------------------------------------------------
 # generators for boxes and parameters
 
-BOX_KINDS = ["unit", "shifted", "negative", "tiny", "huge", "mixed", "dyadic", "ulps"]
+BOX_KINDS = ["unit", "shifted", "negative", "tiny", "huge", "mixed", "dyadic", "ulps", "ints"]
 
 
 def gen_box(rng, dim, kind=None):
@@ -563,6 +563,11 @@ def gen_box(rng, dim, kind=None):
             for _ in range(int(rng.integers(1, 6))):
                 hi = float(np.nextafter(hi, np.inf))
             box.append([lo, hi])
+            continue
+        elif kind == "ints":
+            # integer end points as in the repository's own tests and docs: domain = [[0, 1]], [[-5, 5]], [[10, 50]]
+            lo = int(rng.choice([0, -1, -5, 10, 1, -100]))
+            box.append([lo, lo + int(rng.choice([1, 2, 5, 10, 40]))])
             continue
         elif kind == "dyadic":
             lo, w = float(rng.choice([0.0, -1.0, 0.5, -4.0, 8.0])), float(rng.choice([1.0, 2.0, 0.5, 4.0]))
